@@ -130,7 +130,7 @@ def h_transfer(s0: bool, s1: bool, s2: bool, p0: bool, p1: bool, p2: bool, pd0: 
         def exc_kind(tp):
             # what kind of error the failing upload reports is symbolic too (decided once per run)
             if "k" not in kinds:
-                kinds["k"] = B(ek)
+                kinds["k"] = B(ek) if cube("ekind", False) else False
             import errno as _e
             return FileNotFoundError(_e.ENOENT, "injected: source vanished", tp) if kinds["k"] else OSError(_e.EIO, "injected upload failure", tp)
 
